@@ -229,6 +229,21 @@ CLAIMS["C07"] = (
     "Trusted: the sampling utilities (checked under C17) and the optimisers (C06).",
     "DESIGN.md §4 C07")
 
+CLAIMS["C19"] = (
+    "finite order-type evaluation of the comparison-only dominance predicate; value-numbered loop body of the filter against its structural reference; "
+    "guarded-division rule; whole-term comparison of the three distance transformations with the geometric definition (ast)",
+    "Decides: (1) `dominates` on ALL order types of its inputs (25 orderings of cv1, cv2, 0 x 8 sets of element-wise relations), which is the whole clause "
+    "because the function touches its arguments only through comparisons; its five call sites pair objective and violation of one solution, in (dominator, dominated) "
+    "order, read from one evaluation ('F', 'G'+'H'), and the archive's parallel lists are edited in lockstep; (2) the STRUCTURE of is_pareto_efficient: weights once, "
+    "keep = any(F > F[pivot], axis=1) with the pivot kept, points and indices filtered by the same mask, pivot' = kept-before + 1, loop while pivot < remaining, "
+    "mask form = zeros(original npt)[index form] = True, and its caller indexes arrays built from one population; (3) every division by a per-objective range is "
+    "zero-guarded (finite for a constant objective); (4) each distance transformation normalises to || M - ((M.v)/(v.v)) v || with M = ((P*sign) - min)/range and "
+    "the documented roles of its parameters (translation invariance is the `- min` step), and the default transformation is given exactly its parameters. "
+    "NOT decided: that the pivot arithmetic of the filter returns the non-dominated set for every order of dominated / duplicate points (the loop invariant of an "
+    "algorithm; only its structural necessary conditions are checked), order- and rescaling-invariance of the efficient set as runtime facts.",
+    "Trusted: numpy semantics of any/max/min/dot/norm; the parameter roles are frozen from the docstrings (table TRANS).",
+    "DESIGN.md §4 C19")
+
 NOT_YET = "rule set not built yet (build in progress; see DESIGN.md §8)"
 NA = {}
 
